@@ -1,6 +1,7 @@
 //! `rlv` — the verification harness binary. One subcommand per engine.
 mod crash;
 mod e4;
+mod faultinj;
 mod mtsmoke;
 mod sqlrun;
 mod util;
@@ -13,6 +14,7 @@ fn main() {
         "sql" => sqlrun::main(&args[2..]),
         "e4" => e4::main(&args[2..]),
         "crash" => crash::main(&args[2..]),
+        "fault" => faultinj::main(&args[2..]),
         "mtsmoke" => mtsmoke::main(&args[2..]),
         _ => {
             eprintln!("usage: rlv <sql|...> [args]");
